@@ -333,6 +333,11 @@ pub fn cpu_budget(tier: &str) -> f64 {
         .unwrap_or(if tier == "thorough" { 60.0 } else { 30.0 })
 }
 
+/// CPU budget of a replay (and of the fresh-process confirmation before a violation is reported)
+pub fn replay_budget() -> f64 {
+    cpu_budget("thorough") * 4.0
+}
+
 /// Execute one explicit case in a fresh worker process; returns violations (prop, check, msg)
 pub fn exec_fresh(profile: &str, case: &Value, want: &[&str], cpu_budget_s: f64) -> (Vec<(String, String, String)>, String) {
     let mut pool = Pool::new(worker_bin(profile), 1);
@@ -446,6 +451,7 @@ pub fn run_check(prop: &str, tier: &str) -> i32 {
     let mut exit = 0;
     let mut reported = 0u64;
     let mut known_reported = 0u64;
+    let mut unconfirmed = 0u64;
     if let Some(f) = agg.found.get("HARNESS.invalid_case") {
         eprintln!("harness error: generator produced an instance REF rejects (seed {}): {}", f.seed, f.msg);
         let _ = std::fs::create_dir_all(verif_dir().join("replays"));
@@ -471,26 +477,43 @@ pub fn run_check(prop: &str, tier: &str) -> i32 {
         }
         let shrink_budget = if tier == "thorough" { 400 } else { 150 };
         let (min_case, steps) = crate::shrink::minimise(&f.profile, &f.case, prop, &f.check, budget, shrink_budget);
-        // fresh-process confirmation of the (minimised) replay
-        let (vs, _) = exec_fresh(&f.profile, &min_case, &[prop], budget * 2.0);
+        // fresh-process confirmation of the (minimised) replay, with the budget `replay` uses: a run
+        // that panics only after a long search must not turn into a timeout when it is replayed
+        let confirm_budget = replay_budget();
+        let (vs, _) = exec_fresh(&f.profile, &min_case, &[prop], confirm_budget);
         let confirmed_min = vs.iter().any(|(p, c, _)| p == prop && *c == f.check);
+        let mut check_id = f.check.clone();
         let (final_case, minimised, msg) = if confirmed_min {
             let m = vs.iter().find(|(p, c, _)| p == prop && *c == f.check).map(|x| x.2.clone()).unwrap_or_default();
             (min_case, true, m)
         } else {
-            let (vs0, _) = exec_fresh(&f.profile, &f.case, &[prop], budget * 2.0);
-            if !vs0.iter().any(|(p, c, _)| p == prop && *c == f.check) {
-                eprintln!("harness error: violation {} (seed {}) did not reproduce in a fresh process; refusing to report", f.check, f.seed);
-                return 2;
+            let (vs0, _) = exec_fresh(&f.profile, &f.case, &[prop], confirm_budget);
+            if let Some(x) = vs0.iter().find(|(p, c, _)| p == prop && *c == f.check) {
+                (f.case.clone(), false, x.2.clone())
+            } else if let Some(x) = vs0.iter().find(|(p, _, _)| p == prop) {
+                // the same input violates the same property, but in the fresh process the first
+                // symptom is another one (typically: a search that ran into the CPU budget in the
+                // batch panics later, or the other way round). Report what the replay file will show.
+                eprintln!("note: {} (seed {}) shows as {} when replayed alone; reporting that", f.check, f.seed, x.1);
+                check_id = x.1.clone();
+                if known_match(&kf, prop, &check_id).is_some() {
+                    println!("KNOWN-FINDING: property={} check={} [seed {}]", prop, check_id, f.seed);
+                    known_reported += 1;
+                    continue;
+                }
+                (f.case.clone(), false, x.2.clone())
+            } else {
+                eprintln!("harness warning: violation {} (seed {}) did not reproduce in a fresh process; not reported", f.check, f.seed);
+                unconfirmed += 1;
+                continue;
             }
-            (f.case.clone(), false, f.msg.clone())
         };
         let dir = verif_dir().join("replays");
         let _ = std::fs::create_dir_all(&dir);
-        let path = dir.join(format!("{}_{}_{}.json", prop, sanitize(&f.check), f.seed));
+        let path = dir.join(format!("{}_{}_{}.json", prop, sanitize(&check_id), f.seed));
         let replay = json!({
             "property": prop,
-            "check": f.check,
+            "check": check_id,
             "message": msg,
             "seed": f.seed,
             "batch_seed": seed,
@@ -501,7 +524,7 @@ pub fn run_check(prop: &str, tier: &str) -> i32 {
             "case": final_case,
         });
         std::fs::write(&path, serde_json::to_string_pretty(&replay).unwrap()).expect("write replay");
-        println!("violation: {} — {}", f.check, msg);
+        println!("violation: {} — {}", check_id, msg);
         println!("VIOLATION property={} replay={}", prop, path.display());
         reported += 1;
         exit = 1;
@@ -521,6 +544,13 @@ pub fn run_check(prop: &str, tier: &str) -> i32 {
         known_reported,
         wall
     );
+    if unconfirmed > 0 && exit == 0 {
+        // something was observed that a fresh process does not show again and nothing else was
+        // confirmed: that is a defect of the harness (a source of nondeterminism it does not own),
+        // not a verdict about the property
+        eprintln!("harness error: {} observation(s) did not reproduce in a fresh process and no violation was confirmed", unconfirmed);
+        return 2;
+    }
     exit
 }
 
@@ -643,7 +673,7 @@ pub fn run_replay(path: &Path) -> i32 {
     let prop = r["property"].as_str().unwrap_or("");
     let check = r["check"].as_str().unwrap_or("");
     let profile = r["profile"].as_str().unwrap_or("release");
-    let (vs, outcome) = exec_fresh(profile, &r["case"], &[prop], cpu_budget("thorough") * 2.0);
+    let (vs, outcome) = exec_fresh(profile, &r["case"], &[prop], replay_budget());
     println!("replay outcome: {}", outcome);
     for (p, c, m) in &vs {
         println!("  {} {} — {}", p, c, m);
